@@ -64,7 +64,10 @@ func cmdOps(args []string) error {
 		n++
 		unit := unitOf(n)
 		if c.Op == "force" {
-			unit = time.Millisecond // the filler is 1 ms long: the abstract unit must be 1 ms
+			unit = time.Millisecond // the filler is 1 ms long: with a filler the abstract unit must be 1 ms
+			if c.B == 0 && n%2 == 1 {
+				unit = 250 * time.Microsecond // without a filler any unit will do: a quarter of a millisecond
+			}
 		}
 		for _, ev := range opsx.Exec(n, c, unit, n%3 != 0) {
 			if err := enc.Encode(ev); err != nil {
@@ -97,6 +100,11 @@ func cmdOpsRand(args []string) error {
 	enc := json.NewEncoder(bw)
 	for i := 0; i < *num; i++ {
 		c := randCase(r, *op, *maxn)
+		if i == 0 && *op == "fragment" {
+			// one long cue cut into more than a thousand pieces (a song, a burnt-in caption, a short period)
+			c = abs.OpCase{Op: "fragment", A: 2, Pre2: mkSubs(nil), Pre: mkSubs([]abs.Cue{
+				{ID: 1, Ptr: 1, S: 1, E: 2301, T: 1, Ok: true}, {ID: 2, Ptr: 2, S: 2400, E: 2403, T: 2, Ok: true}})}
+		}
 		ru := time.Millisecond
 		if c.Op != "force" && i%3 == 2 {
 			ru = 250 * time.Microsecond
